@@ -20,6 +20,7 @@ start-up state of `main` (`TableState::default().with_selected(0)`), see `run_fr
 The only side condition is `n < 2^64` (`items.len()` is a `usize`).
 -/
 import Rs1090.Proofs.Tui
+import Rs1090.Gen.Ratatui
 namespace Rs1090.Props.C17
 open Rs1090 Rs1090.Model.Tui Rs1090.Proofs.Tui
 
@@ -246,8 +247,10 @@ theorem documented_keys_act (ui : Ui) :
 
 `update()` is not the only writer of the selection: jet1090 redraws after every handled event
 and ratatui's `Table::render` clamps the selection to the rows drawn (and clears it for an
-empty table).  With that step (`Model.Tui.draw`, modelled from ratatui 0.29, trusted) the
-statement extends from a fixed `n` to tables that grow and shrink between events. -/
+empty table).  With that step (`Model.Tui.draw` / `drawOn`, written from ratatui 0.29.0 —
+`ratatui_version_modelled` — and compared with the real `table::build_table` on a `TestBackend`
+by the correspondence check) the statement extends from a fixed `n` to tables that grow and
+shrink between events. -/
 
 theorem draw_inv (ui : Ui) (rows : Nat) (hr : rows < 2 ^ 64) : Inv (draw ui rows) := by
   refine ⟨hr, ?_⟩
@@ -262,27 +265,122 @@ theorem draw_inv (ui : Ui) (rows : Nat) (hr : rows < 2 ^ 64) : Inv (draw ui rows
       simp only [hs] at hi
       split at hi <;> cases hi <;> constructor <;> intros <;> omega
 
-/-- Any session from any state (even with a stale selection), all row counts `< 2^64`: no
-    panic, and after the first redraw the invariant holds at every later point. -/
-theorem session_ok (steps : List Step) : ∀ ui, ui.n < 2 ^ 64 →
-    (∀ r, Step.redraw r ∈ steps → r < 2 ^ 64) →
-    ∃ ui', session ui steps = .ok ui' ∧ ui'.n < 2 ^ 64 ∧ (Inv ui → Inv ui') := by
+/-- a redraw on a terminal that shows the table occurs in the steps -/
+def Redrawn (steps : List Step) : Prop :=
+  ∃ st ∈ steps, (∃ r, st = .redraw r) ∨ (∃ t r, st = .redrawOn t r ∧ t.showsTable = true)
+
+/-- side conditions of a session: row counts are `usize`s, and no terminal has zero columns -/
+def StepsOk (steps : List Step) : Prop :=
+  (∀ r, Step.redraw r ∈ steps → r < 2 ^ 64) ∧
+  (∀ t r, Step.redrawOn t r ∈ steps → r < 2 ^ 64 ∧ 0 < t.w)
+
+/-- steps none of which redraws on a terminal too small to show the table -/
+def AllShown (steps : List Step) : Prop :=
+  ∀ t r, Step.redrawOn t r ∈ steps → t.showsTable = true
+
+/-- on a terminal that shows the table `drawOn` is ratatui's clamp `draw` -/
+theorem drawOn_shown (t : Term) (ui : Ui) (r : Nat) (hw : 0 < t.w) (hs : t.showsTable = true) :
+    drawOn t ui r = .ok (draw ui r) := by
+  unfold drawOn
+  rw [if_neg (by omega), if_pos hs]
+
+/-- on a terminal too small to show it only the row count changes -/
+theorem drawOn_hidden (t : Term) (ui : Ui) (r : Nat) (hw : 0 < t.w) (hs : t.showsTable = false) :
+    drawOn t ui r = .ok { ui with n := r } := by
+  unfold drawOn
+  rw [if_neg (by omega), if_neg (by simp [hs])]
+
+/-- One list of steps.  From ANY start state (even a stale selection), row counts `< 2^64`, no
+    zero-column terminal: no panic; and if every redraw is on a terminal that shows the table,
+    then the invariant holds at the end as soon as it held at the start OR a redraw occurred. -/
+theorem session_end (steps : List Step) : ∀ ui, ui.n < 2 ^ 64 → StepsOk steps →
+    ∃ ui', session ui steps = .ok ui' ∧ ui'.n < 2 ^ 64 ∧
+      (AllShown steps → (Inv ui ∨ Redrawn steps) → Inv ui') := by
   induction steps with
-  | nil => intro ui h _; exact ⟨ui, rfl, h, id⟩
+  | nil =>
+    intro ui h _
+    refine ⟨ui, rfl, h, fun _ hi => hi.elim id ?_⟩
+    rintro ⟨st, hst, _⟩; cases hst
   | cons st rest ih =>
-    intro ui hn hr
-    have hr' : ∀ r, Step.redraw r ∈ rest → r < 2 ^ 64 := fun r h => hr r (List.mem_cons_of_mem _ h)
+    intro ui hn hok
+    have hok' : StepsOk rest :=
+      ⟨fun r h => hok.1 r (List.mem_cons_of_mem _ h), fun t r h => hok.2 t r (List.mem_cons_of_mem _ h)⟩
+    have hsh' : AllShown (st :: rest) → AllShown rest := fun h t r hm => h t r (List.mem_cons_of_mem _ hm)
     cases st with
     | ev e =>
       obtain ⟨u1, h1, hn1⟩ := update_total ui e hn
-      obtain ⟨u2, h2, hn2, hi2⟩ := ih u1 (by omega) hr'
-      refine ⟨u2, ?_, hn2, fun hi => hi2 (update_inv ui u1 e hi h1)⟩
-      show (update ui e).bind _ = _
-      rw [h1, Outcome.bind_ok]; exact h2
+      obtain ⟨u2, h2, hn2, hi2⟩ := ih u1 (by omega) hok'
+      refine ⟨u2, ?_, hn2, fun hsh hi => hi2 (hsh' hsh) ?_⟩
+      · show (update ui e).bind _ = _
+        rw [h1, Outcome.bind_ok]; exact h2
+      · rcases hi with hi | ⟨st, hst, hk⟩
+        · exact .inl (update_inv ui u1 e hi h1)
+        · rcases List.mem_cons.mp hst with rfl | hst
+          · rcases hk with ⟨r, hk⟩ | ⟨t, r, hk, _⟩ <;> cases hk
+          · exact .inr ⟨st, hst, hk⟩
     | redraw r =>
-      have hrr : r < 2 ^ 64 := hr r (List.mem_cons_self ..)
-      obtain ⟨u2, h2, hn2, hi2⟩ := ih (draw ui r) hrr hr'
-      exact ⟨u2, h2, hn2, fun _ => hi2 (draw_inv ui r hrr)⟩
+      have hrr : r < 2 ^ 64 := hok.1 r (List.mem_cons_self ..)
+      obtain ⟨u2, h2, hn2, hi2⟩ := ih (draw ui r) hrr hok'
+      exact ⟨u2, h2, hn2, fun hsh _ => hi2 (hsh' hsh) (.inl (draw_inv ui r hrr))⟩
+    | redrawOn t r =>
+      obtain ⟨hrr, hw⟩ := hok.2 t r (List.mem_cons_self ..)
+      cases hs : t.showsTable with
+      | true =>
+        obtain ⟨u2, h2, hn2, hi2⟩ := ih (draw ui r) hrr hok'
+        refine ⟨u2, ?_, hn2, fun hsh _ => hi2 (hsh' hsh) (.inl (draw_inv ui r hrr))⟩
+        show (drawOn t ui r).bind _ = _
+        rw [drawOn_shown t ui r hw hs, Outcome.bind_ok]; exact h2
+      | false =>
+        obtain ⟨u2, h2, hn2, _⟩ := ih { ui with n := r } hrr hok'
+        refine ⟨u2, ?_, hn2, fun hsh _ => ?_⟩
+        · show (drawOn t ui r).bind _ = _
+          rw [drawOn_hidden t ui r hw hs, Outcome.bind_ok]; exact h2
+        · have := hsh t r (List.mem_cons_self ..)
+          rw [hs] at this; cases this
+
+/-- **Sessions (audit M2).**  For ANY start state and every prefix of the session: no panic, and
+    — when the redraws are on terminals that show the table — once a redraw has happened (or the
+    invariant held at the start) the invariant holds, i.e. it holds at every later point. -/
+theorem session_ok (steps : List Step) (ui : Ui) (hn : ui.n < 2 ^ 64) (hok : StepsOk steps) :
+    ∀ pre, pre <+: steps →
+      ∃ ui', session ui pre = .ok ui' ∧ ui'.n < 2 ^ 64 ∧
+        (AllShown pre → (Inv ui ∨ Redrawn pre) → Inv ui') := by
+  intro pre hp
+  have hsub := hp.subset
+  exact session_end pre ui hn
+    ⟨fun r h => hok.1 r (hsub h), fun t r h => hok.2 t r (hsub h)⟩
+
+/-- … in particular no session panics (any terminal sizes with at least one column). -/
+theorem session_ne_panic (steps : List Step) (ui : Ui) (hn : ui.n < 2 ^ 64) (hok : StepsOk steps)
+    (s : Site) : session ui steps ≠ .panic s := by
+  obtain ⟨u, h, _⟩ := session_end steps ui hn hok
+  rw [h]; intro h'; cases h'
+
+/-- The hypothesis `AllShown` is needed: on a terminal too small to show the table (here 4
+    columns) ratatui returns before the clamp, and a table that shrank keeps its stale selection. -/
+theorem hidden_redraw_keeps_stale :
+    ∃ ui', session (init 3 (some 2)) [.redrawOn ⟨4, 30⟩ 1] = .ok ui' ∧ ¬ Inv ui' := by
+  refine ⟨{ init 3 (some 2) with n := 1 }, by decide, ?_⟩
+  intro h
+  have := (h.2 2 rfl).2 (by decide)
+  exact absurd this (by decide)
+
+/-- The hypothesis `0 < t.w` is needed: ratatui 0.29's `Scrollbar` panics ("Scrollbar area is
+    empty") when `build_table` draws a non-empty table on a terminal with no column and ≥ 3 lines
+    (observed through the verification driver: `tui 3:2 Term0x3 Draw1`).  This is the redraw, not
+    the event handler, and needs a zero-width terminal; recorded in notes/C17.md. -/
+theorem zero_width_redraw_panics :
+    session (init 0) [.redrawOn ⟨0, 3⟩ 1] = .panic .unwrapNone := by decide
+
+/-- `draw` / `drawOn` were written from ratatui **0.29.0** (`Table::render_ref`, `Scrollbar`); this
+    is the one ratatui package in the repository's Cargo.lock (version, registry source, checksum of
+    the crate contents), and the version jet1090 asks for.  A dependency bump makes this theorem
+    fail until the model has been re-read against the new version. -/
+theorem ratatui_version_modelled :
+    Gen.Ratatui.packages =
+      [("0.29.0", "registry+https://github.com/rust-lang/crates.io-index",
+        "eabd94c2f37801c20583fc49dd5cd6b0ba68c716787c2dd6ed18571e1e63117b")] ∧
+    Gen.Ratatui.jet1090Requirement = "0.29.0" := by decide
 
 /-! ### the defect this property found (model of the code before the repair)
 
